@@ -222,8 +222,9 @@ class mapper(object):
             if isinstance(p, bytes):
                 p = cst(Bits(p[::endian], bitorder=1).int(), plen * 8)
             elif isinstance(p, exp):
-                if p._is_def == 0:
+                if not (p._is_def or p._is_top):
                     # p is "bottom": the input memory at this offset
+                    # (a stored top is a value - unknown - not unmapped memory)
                     p = mem(a, p.size, disp=cur, endian=endian)
                 elif p.etype==et_ext and p._subrefs.get("mmio_r",None):
                     p = p.stub(self,mode="r")
